@@ -12,6 +12,29 @@ pub open spec fn tsame_at(a: Expression, b: Expression, ids: Ids) -> bool {
 }
 
 // ---------------------------------------------------------------- one cell
+// a comparison of a re-keyed field / cast with a literal, against the cache, is the original comparison
+pub proof fn lemma_cmp_rekey(l2: Expression, l: Expression, op: BoolSym, r: Expression, i: int, c: Seq<Option<V>>, d: DocM)
+    requires
+        is_lit(r),
+        match (l2, l) {
+            (Expression::Cast(f2, k2), Expression::Cast(f, k)) => is_key(f2@, i) && k2 == k && c[i] == dm_find(d, f@),
+            (Expression::Field(f2), Expression::Field(f)) => is_key(f2@, i) && c[i] == dm_find(d, f@),
+            _ => false,
+        },
+        0 <= i < c.len(),
+        c[i] is Some,
+    ensures
+        sem_cmp(l2, op, r, DocM::Cache(c)) == sem_cmp(l, op, r, d),
+{
+    let dc = DocM::Cache(c);
+    let f2 = match l2 { Expression::Cast(f2, _) => f2, Expression::Field(f2) => f2, _ => arbitrary() };
+    let f = match l { Expression::Cast(f, _) => f, Expression::Field(f) => f, _ => arbitrary() };
+    assert(cache_index(f2@) == i);
+    assert(dm_find(dc, f2@) == dm_find(d, f@));
+    assert(operand(r, dc) == operand(r, d));
+    assert(operand(l2, dc) == operand(l, d));
+}
+
 // a re-keyed cell against a cache that holds the field's value under the column index means what the conjunct means
 pub proof fn lemma_cell_sem(cell: Expression, x: Expression, i: int, c: Seq<Option<V>>, ids: Ids, d: DocM)
     requires
@@ -26,26 +49,29 @@ pub proof fn lemma_cell_sem(cell: Expression, x: Expression, i: int, c: Seq<Opti
     match x {
         Expression::BooleanExpression(l, op, r) => {
             let l2 = *cell->BooleanExpression_0;
-            let f = elem_field(x)->Some_0;
-            let f2 = match l2 { Expression::Cast(f2, _) => f2, Expression::Field(f2) => f2, _ => f };
-            assert(is_key(f2@, i));
-            assert(cache_index(f2@) == i);
-            assert(dm_find(dc, f2@) == dm_find(d, f@));
-            assert(operand(*r, dc) == operand(*r, d));
-            assert(operand(l2, dc) == operand(*l, d));
-            assert(sem3(*r, ids, dc) == sem3(*r, ids, d));
-            assert(sem3(l2, ids, dc) == sem3(*l, ids, d));
-            assert(sem_cmp(l2, op, *r, dc) == sem_cmp(*l, op, *r, d));
+            assert(cell == Expression::BooleanExpression(Box::new(l2), op, r));
+            if op == BoolSym::And || op == BoolSym::Or {
+                assert(sem3(l2, ids, dc) == SolverResult::Missing && sem3(*l, ids, d) == SolverResult::Missing);
+                assert(sem3(*r, ids, dc) == SolverResult::Missing && sem3(*r, ids, d) == SolverResult::Missing);
+            } else {
+                lemma_cmp_rekey(l2, *l, op, *r, i, c, d);
+                assert(sem3(cell, ids, dc) == sem_cmp(l2, op, *r, dc));
+                assert(sem3(x, ids, d) == sem_cmp(*l, op, *r, d));
+            }
         },
         Expression::Nested(f, inner) => {
             let f2 = cell->Nested_0;
+            assert(cell == Expression::Nested(f2, inner));
             assert(cache_index(f2@) == i);
             assert(dm_find(dc, f2@) == dm_find(d, f@));
         },
         Expression::Search(kind, f, cast) => {
             let f2 = cell->Search_1;
+            assert(cell == Expression::Search(kind, f2, cast));
             assert(cache_index(f2@) == i);
             assert(dm_find(dc, f2@) == dm_find(d, f@));
+            assert(sem3(cell, ids, dc) == sem_search(kind, f2@, cast, dc));
+            assert(sem3(x, ids, d) == sem_search(kind, f@, cast, d));
         },
         _ => {},
     }
@@ -316,8 +342,19 @@ pub open spec fn neg_safe(e: Expression) -> bool
         Expression::BooleanGroup(BoolSym::Or, g) => forall|i: int| 0 <= i < g.len() ==> neg_safe(#[trigger] g[i]),
         Expression::BooleanExpression(l, op, r) => if is_cmp(op) { true } else { neg_safe(*l) && neg_safe(*r) },
         Expression::Negate(x) => or_free(*x),
-        Expression::Nested(_, x) => !(*x is Match) && neg_safe(*x),
+        Expression::Nested(_, x) => !has_match_head(*x) && neg_safe(*x),
         _ => true,
+    }
+}
+
+// an all()/of() at the head of a block, possibly inside or-groups: what matrix() may return as a bare all()/of()
+pub open spec fn has_match_head(e: Expression) -> bool
+    decreases e,
+{
+    match e {
+        Expression::Match(_, _) => true,
+        Expression::BooleanGroup(BoolSym::Or, g) => exists|j: int| 0 <= j < g.len() && has_match_head(#[trigger] g[j]),
+        _ => false,
     }
 }
 
@@ -340,6 +377,7 @@ pub open spec fn mx_post(r: Expression, e: Expression, ids: Ids) -> bool {
     &&& wf(r, ids)   // P:C03
     &&& blocks_closed(r)
     &&& solvable(r) == solvable(e)
+    &&& !has_ident(e) ==> !has_ident(r)
     &&& neg_safe(e) ==> tsame_at(r, e, ids)   // P:C01,C17
     &&& or_free(e) ==> esame_at(r, e, ids)   // P:C01
 }
@@ -555,6 +593,87 @@ pub proof fn lemma_matrix_truth(scratch: Vec<Expression>, cols: Vec<String>, row
     }
 }
 
+// identifiers: a matrix cell never holds one, the other operands are optimised operands
+pub proof fn lemma_or_arm_ident(g0: Vec<Expression>, scratch: Vec<Expression>, cols: Vec<String>, rows: Vec<Vec<Option<Expression>>>, rest: Seq<Expression>, ev: Vec<Expression>, ids: Ids)
+    requires
+        mx_pre(Expression::BooleanGroup(BoolSym::Or, g0), ids),
+        scratch@.len() == g0@.len(),
+        forall|j: int| 0 <= j < g0@.len() ==> mx_post(#[trigger] scratch@[j], g0@[j], ids),
+        mx_inv(cols@, rows@, rest, scratch@),
+        ev@ =~= (if rows@.len() > 0 { seq![Expression::Matrix(cols, rows)] } else { Seq::<Expression>::empty() }) + rest,
+    ensures
+        !has_ident(Expression::BooleanGroup(BoolSym::Or, g0)) ==> !has_ident(mx_result(cols, rows, ev)),
+{
+    let e0 = Expression::BooleanGroup(BoolSym::Or, g0);
+    let m = Expression::Matrix(cols, rows);
+    let res = mx_result(cols, rows, ev);
+    let off: int = if rows@.len() > 0 { 1 } else { 0 };
+    reveal(mx_post);
+    if !has_ident(e0) {
+        assert(e0->BooleanGroup_1 == g0);
+        assert forall|j: int| 0 <= j < g0.len() implies !has_ident(#[trigger] g0[j]) by {
+            if has_ident(g0[j]) { lemma_has_ident_elem(BoolSym::Or, g0, j); }
+        }
+        assert(elems_ok(scratch@, ids)) by {
+            assert forall|j: int| 0 <= j < scratch@.len() implies solvable(#[trigger] scratch@[j]) && wf(scratch@[j], ids) && blocks_closed(scratch@[j]) by {
+                assert(mx_post(scratch@[j], g0@[j], ids));
+                assert(solvable(g0[j]));
+            }
+        }
+        lemma_matrix_wf(scratch, cols, rows, rest, ids);
+        lemma_row_srcs(cols, rows, rest, scratch);
+        assert(!has_ident(m)) by {
+            assert(m->Matrix_1 == rows);
+            if has_ident(m) {
+                let (j, i) = choose|j: int, i: int| 0 <= j < rows.len() && 0 <= i < rows[j].len() && (#[trigger] rows[j][i]) is Some && has_ident(rows[j][i]->Some_0);
+                assert(!has_ident(rows[j][i]->Some_0));
+            }
+        }
+        assert forall|i: int| 0 <= i < ev.len() implies !has_ident(#[trigger] ev[i]) by {
+            if i < off { assert(ev@[i] == m); } else {
+                assert(ev@[i] == rest[i - off]);
+                assert(scratch@.contains(rest[i - off]));
+                let j = choose|j: int| 0 <= j < scratch@.len() && scratch@[j] == rest[i - off];
+                assert(mx_post(scratch@[j], g0@[j], ids));
+                assert(!has_ident(g0[j]));
+            }
+        }
+        if ev.len() != 1 {
+            let r2 = Expression::BooleanGroup(BoolSym::Or, ev);
+            assert(r2->BooleanGroup_1 == ev);
+            if has_ident(r2) {
+                let i = choose|i: int| 0 <= i < ev.len() && has_ident(#[trigger] ev[i]);
+                assert(false);
+            }
+        }
+    }
+}
+
+// a bare all()/of() comes out of the or-arm only if one went in
+pub proof fn lemma_or_arm_head(g0: Vec<Expression>, scratch: Vec<Expression>, cols: Vec<String>, rows: Vec<Vec<Option<Expression>>>, rest: Seq<Expression>, ev: Vec<Expression>)
+    requires
+        scratch@.len() == g0@.len(),
+        forall|j: int| 0 <= j < g0@.len() && (#[trigger] scratch@[j]) is Match ==> has_match_head(g0@[j]),
+        mx_inv(cols@, rows@, rest, scratch@),
+        ev@ =~= (if rows@.len() > 0 { seq![Expression::Matrix(cols, rows)] } else { Seq::<Expression>::empty() }) + rest,
+    ensures
+        mx_result(cols, rows, ev) is Match ==> has_match_head(Expression::BooleanGroup(BoolSym::Or, g0)),
+{
+    let e0 = Expression::BooleanGroup(BoolSym::Or, g0);
+    let res = mx_result(cols, rows, ev);
+    lemma_row_srcs(cols, rows, rest, scratch);
+    if res is Match {
+        assert(ev.len() == 1 && res == ev@[0]);
+        if rows@.len() > 0 { assert(ev@[0] == Expression::Matrix(cols, rows)); }
+        assert(ev@[0] == rest[0]);
+        assert(scratch@.contains(rest[0]));
+        let j = choose|j: int| 0 <= j < scratch@.len() && scratch@[j] == rest[0];
+        assert(has_match_head(g0@[j]));
+        assert(e0->BooleanGroup_1 == g0);
+        assert(has_match_head(g0[j]));
+    }
+}
+
 // the or-arm: what the two passes build means what the or-group means
 pub proof fn lemma_or_arm(g0: Vec<Expression>, scratch: Vec<Expression>, cols: Vec<String>, rows: Vec<Vec<Option<Expression>>>, rest: Seq<Expression>, ev: Vec<Expression>, ids: Ids)
     requires
@@ -566,6 +685,7 @@ pub proof fn lemma_or_arm(g0: Vec<Expression>, scratch: Vec<Expression>, cols: V
     ensures
         mx_post(mx_result(cols, rows, ev), Expression::BooleanGroup(BoolSym::Or, g0), ids),
 {
+    lemma_or_arm_ident(g0, scratch, cols, rows, rest, ev, ids);
     let e0 = Expression::BooleanGroup(BoolSym::Or, g0);
     let m = Expression::Matrix(cols, rows);
     let res = mx_result(cols, rows, ev);
